@@ -750,6 +750,33 @@ def r3_10(ctx, R, inc, ctor, free_fn):
     ctx.ob("R3.10", "<crate>", "shared types identified", True, "", "header %s; shared types %s" % (hdr, sorted(shared)))
 
 
+def index_identity(ctx, R):
+    """R3.5 as a shared link (C01 / C02 / C11): the index POP reports is the slot's own position -- the constructor writes
+    index K into the item at slice+K, untruncated, and header<->item arithmetic uses one offset."""
+    ctor = alloc_fn(ctx)
+    ctx.need(ctor is not None, "ALLOC")
+    cf = ctx.flow(ctor)
+    lay = None
+    for bb, t, fn in direct_sites(ctor, r"^alloc::alloc::alloc$"):
+        e = cf.operand_expr(t["args"][0])
+        if e[0] == "call" and e[1] in ctx.facts.bodies:
+            lay = ctx.facts.bodies[e[1]]
+    ctx.need(lay is not None, "LAYOUT: alloc's layout must come from a crate function")
+    r3_5(ctx, R, lay)
+    # the stored index has the full width of a slot position
+    for path, adt in ctx.facts.adts.items():
+        if adt["kind"] != "struct":
+            continue
+        fs = adt["variants"][0]["fields"]
+        if not any(f["ty"].startswith("cordyceps::mpsc_queue::Links<") for f in fs):
+            continue       # the queue node type: the struct that embeds the intrusive links
+        for f in fs:
+            if f["ty"] in ("usize", "u8", "u16", "u32", "u64", "u128", "isize", "i8", "i16", "i32", "i64"):
+                ctx.ob("R3.5", path, "slot-index-field-is-usize:" + f["name"], f["ty"] == "usize", "", "type %s" % f["ty"])
+    ctx.rule("R3.5", "see C03 R3.5 (shared): the item at slice+K stores index K (full usize width); forward and reverse pointer "
+                     "arithmetic agree -- so the index delivered by POP names the slot that was marked / woken")
+
+
 def run(ctx):
     R = roles(ctx)
     R.pop_fn, R.vt
